@@ -4,5 +4,5 @@ CONSTANTS
   Alphabet <- FullAlphabet
   MaxLen = 4
   DialectSet <- TwoDialects
-INVARIANTS Relex RenderIdempotent UngetGet LeadingOnlyAdds CommentOnlyAdds KnobsPinned TabsAreSpaces NoEolInParens ParensHideLines BalancedIffAccepted
+INVARIANTS Relex RenderIdempotent UngetGet LeadingOnlyAdds CommentOnlyAdds KnobsPinned TabsAreSpaces NoEolInParens ParensHideLines BalancedIffAccepted CommentsIgnored LeadingBlank
 CHECK_DEADLOCK FALSE
